@@ -40,6 +40,10 @@ structure EdCfg where
   completer : Text → Nat → Nat × List Text := fun _ _ => (0, [])
   validator : Text → Verdict := fun _ => .valid false
   hinter : Text → Nat → Option Text := fun _ _ => none
+  /-- the hinter panics at its k-th call (application-supplied helpers may panic: C16) -/
+  hinterPanicAt : Option Nat := none
+  /-- hinter calls made by earlier reads on the same editor (the helper outlives a read) -/
+  hintCallsBase : Nat := 0
   /-- `highlight_char` of the installed highlighter (only its effect on `s.highlight_char` matters here) -/
   highlightChar : Text → Nat → Bool := fun _ _ => false
   binds : List (List KeyEvent × Cmd) := []
@@ -83,6 +87,7 @@ structure Ed where
   obs : List Obs          -- most recent first
   validatorCalls : List Text  -- most recent first
   suspends : Nat := 0
+  hintCalls : Nat := 0
   /-- C02: the calls made on the renderer, most recent first (a pure log: nothing reads it) -/
   render : List RenderOp := []
 
@@ -186,6 +191,14 @@ def computeHint (s : Ed) : Option Text :=
     | none => none
   else none
 
+/-- `State::hint()`: asks the hinter (which may panic at its k-th call) -/
+def updateHint : EM Unit := fun s =>
+  if cfg.hasHelper then
+    let n := s.hintCalls + 1
+    if cfg.hinterPanicAt == some (cfg.hintCallsBase + n) then .error (.panic, { s with hintCalls := n })
+    else .ok ((), { s with hint := computeHint cfg s, hintCalls := n })
+  else .ok ((), { s with hint := none })
+
 /-- `State::highlight_char(kind)`: returns whether a full refresh is needed -/
 def highlightCharStep : EM Bool := fun s =>
   if cfg.hasHelper then
@@ -209,7 +222,7 @@ def promptColOf (t : Text) : Nat :=
 def logRender (f : Ed → RenderOp) : EM Unit := modify (fun s => { s with render := f s :: s.render })
 
 def refreshLine : EM Unit := do
-  modify (fun s => { s with hint := computeHint cfg s })
+  updateHint cfg
   let _ ← highlightCharStep cfg
   modify (fun s => { s with defaultPrompt := true, layoutPromptCol := promptColOf S U cfg cfg.prompt })
   logRender (fun s => .refresh none s.line.buf s.line.pos s.hint)
@@ -223,7 +236,7 @@ def refreshLineWithMsg (msg : Option Text := none) : EM Unit := do
 
 /-- `prompt` is the dynamic prompt text -/
 def refreshPromptAndLine (prompt : Text) : EM Unit := do
-  modify (fun s => { s with hint := computeHint cfg s })
+  updateHint cfg
   let _ ← highlightCharStep cfg
   modify (fun s => { s with defaultPrompt := false, layoutPromptCol := promptColOf S U cfg prompt })
   logRender (fun s => .refresh (some prompt) s.line.buf s.line.pos s.hint)
@@ -770,7 +783,8 @@ def editInsert (ch : Char) (n : Nat) : EM Unit := do
     let noPrevHint := (← get).hint.isNone
     -- both the fast path and the full refresh recompute the hint; the full refresh lays the line
     -- out after the default prompt (the fast path is only taken when that is already the case)
-    modify (fun s => { s with hint := computeHint cfg s, layoutPromptCol := promptColOf S U cfg cfg.prompt })
+    updateHint cfg
+    modify (fun s => { s with layoutPromptCol := promptColOf S U cfg cfg.prompt })
     let hl ← highlightCharStep cfg   -- evaluated by the fast-path guard or by refresh_line
     logRender (fun s => .insert ch n push s.line.buf s.line.pos s.hint noPrevHint hl)
   | none => pure ()
